@@ -716,6 +716,12 @@ package fit
 //@   requires [header] {C13} d.bytes.n >= 1 && recordHeader == lastByte(d) && compressed == (recordHeader&0x80 == 0x80)
 //@   requires [latest] {C13} defs_latest(d)
 //@   gassign {C03} nvalid(d) := nvalid(d)+1 when err == nil && rvvalid(r)
+//@@ C16: a data record of a message number absent from the profile adds exactly one to that number's count
+//@@ (when the option is on), every other count is untouched; records of known messages never count here
+//@   ensures [unk-msg] {C16} old(d.defmsgs[slotOf(recordHeader, compressed)]) != nil && d.opts.unknownMessages && !knownMsgNums[old(d.defmsgs[slotOf(recordHeader, compressed)]).globalMsgNum] ==>
+//@  |   d.unknownMessages[old(d.defmsgs[slotOf(recordHeader, compressed)]).globalMsgNum] == old(d.unknownMessages[d.defmsgs[slotOf(recordHeader, compressed)].globalMsgNum])+1
+//@   ensures [unk-msg-others] {C16} forall m MesgNum :: (old(d.defmsgs[slotOf(recordHeader, compressed)]) == nil || !d.opts.unknownMessages || knownMsgNums[old(d.defmsgs[slotOf(recordHeader, compressed)]).globalMsgNum] || m != old(d.defmsgs[slotOf(recordHeader, compressed)]).globalMsgNum) ==>
+//@  |   d.unknownMessages[m] == old(d.unknownMessages[m])
 //@@ C02: every record is decoded into a message of its own, created all-invalid for this record (fields that the
 //@@ record does not carry therefore hold their invalid values: constructors checked by the C15 table obligations)
 //@   ensures [fresh-msg] {C02} err == nil && rvvalid(r) ==> fresh(r)
